@@ -15,36 +15,19 @@ Lemma filter_neg_map_nojoin : forall (f : nat -> bmsg) l, (forall x, is_join (f 
   filter (fun m => negb (is_join m)) (map f l) = map f l.
 Proof. intros f l H. induction l; cbn; [reflexivity|]. rewrite H. cbn. congruence. Qed.
 
-(* every category except the favourite rooms is exactly what the settings say *)
-Lemma burst_other_categories : forall s p sh,
-  filter (fun m => negb (is_join m)) (login_burst s p sh) = filter (fun m => negb (is_join m)) (spec_burst s p sh).
-Proof.
-  intros. unfold login_burst, spec_burst. cbn [app filter is_join negb]. do 7 f_equal.
-  rewrite !filter_app. f_equal. cbn [filter is_join negb]. f_equal. rewrite !filter_app. f_equal.
-  destruct (s_auto_join s); cbn [negb]; cbn [filter]; now rewrite filter_neg_map_join.
-Qed.
+(* the burst is what the settings say (F19 repaired) *)
+Lemma burst_exact : forall s p sh, login_burst s p sh = spec_burst s p sh.
+Proof. reflexivity. Qed.
 
-(* the favourite rooms are joined iff auto_join is FALSE (the code), iff TRUE (the property) *)
+(* and the favourite rooms are in it iff auto_join *)
 Lemma burst_joins : forall s p sh,
-  filter is_join (login_burst s p sh) = (if s_auto_join s then [] else map JoinRoom (s_favorites s)) /\
-  filter is_join (spec_burst s p sh) = (if s_auto_join s then map JoinRoom (s_favorites s) else []).
+  filter is_join (login_burst s p sh) = (if s_auto_join s then map JoinRoom (s_favorites s) else []).
 Proof.
-  intros. unfold login_burst, spec_burst. cbn [app filter is_join negb].
+  intros. unfold login_burst. cbn [app filter is_join negb].
   rewrite !filter_app. cbn [filter is_join]. rewrite !filter_app.
   rewrite !(filter_map_nojoin AddUser), !(filter_map_nojoin AddInterest), !(filter_map_nojoin AddHatedInterest) by reflexivity.
   cbn [filter is_join app]. rewrite !app_nil_r.
-  destruct (s_auto_join s); cbn [negb filter]; rewrite ?filter_map_join; split; reflexivity.
-Qed.
-
-Lemma burst_exact_when_consistent : forall s p sh,
-  s_favorites s = [] -> login_burst s p sh = spec_burst s p sh.
-Proof. intros s p sh H. unfold login_burst, spec_burst. rewrite H. destruct (s_auto_join s); reflexivity. Qed.
-
-Lemma burst_refuted : exists s p sh,
-  In (JoinRoom 1) (spec_burst s p sh) /\ ~ In (JoinRoom 1) (login_burst s p sh).
-Proof.
-  exists (mkSettings 6 0 [] [] [] [1] true true false), (6, 0), (0, 0).
-  split; [vm_compute; tauto|]. vm_compute. intuition discriminate.
+  destruct (s_auto_join s); cbn [filter]; rewrite ?filter_map_join; reflexivity.
 Qed.
 
 (* ---------------------------------------------------------------------------------------- *)
@@ -83,11 +66,11 @@ Proof. intros f H c. unfold allc in H. apply andb_prop in H. destruct H as [H H3
 
 Definition allst (f : st -> bool) : bool :=
   allc (fun c => allb (fun a1 => allb (fun a2 => allb (fun a3 => allb (fun a4 => allb (fun a5 => allb (fun a6 =>
-  allb (fun a7 => allb (fun a8 => allb (fun a9 => f (mkSt c a1 a2 a3 a4 a5 a6 a7 a8 a9))))))))))).
+  allb (fun a7 => allb (fun a8 => f (mkSt c a1 a2 a3 a4 a5 a6 a7 a8)))))))))).
 Lemma allst_ok : forall f, allst f = true -> forall x, f x = true.
 Proof.
-  intros f H [c a1 a2 a3 a4 a5 a6 a7 a8 a9]. unfold allst in H.
-  apply (allb_ok _ (allb_ok _ (allb_ok _ (allb_ok _ (allb_ok _ (allb_ok _ (allb_ok _ (allb_ok _ (allb_ok _ (allc_ok _ H c) a1) a2) a3) a4) a5) a6) a7) a8) a9).
+  intros f H [c a1 a2 a3 a4 a5 a6 a7 a8]. unfold allst in H.
+  apply (allb_ok _ (allb_ok _ (allb_ok _ (allb_ok _ (allb_ok _ (allb_ok _ (allb_ok _ (allb_ok _ (allc_ok _ H c) a1) a2) a3) a4) a5) a6) a7) a8).
 Qed.
 
 Definition allreason (f : reason -> bool) : bool := f REof && f RRead && f RWrite && f RTimeout && f RRequested.
@@ -135,7 +118,6 @@ Qed.
 
 (* plain fragment: session exactly on an open connection; nothing server-derived survives a loss *)
 Definition reset_ok (auto : bool) (x : st) : bool :=
-  negb (wedged x) &&
   implb (session x) (msession x && derived x) &&
   implb (msession x || derived x || dist x) (session x) &&
   implb (watchdog x) auto &&
@@ -173,12 +155,9 @@ Proof.
   clear - Hc Hn. induction o as [|a o IHo]; cbn in *; [exact Hn|]. destruct a; cbn in *; try discriminate; auto.
 Qed.
 
-(* Stop itself: quiet afterwards iff no stale watchdog (connection open, or watchdog not running),
-   no potential-parent task and no wedged tracking task *)
-Definition stop_pre (x : st) : bool :=
-  negb (wedged x) && negb (parents x) && (match conn x with Connected => true | _ => negb (watchdog x) end).
+(* Stop itself: quiet afterwards, from EVERY state *)
 Definition stop_quiet (auto : bool) : bool :=
-  allst (fun x => implb (stop_pre x) (quiet_b auto (fst (step auto x Stop)))).
+  allst (fun x => quiet_b auto (fst (step auto x Stop))).
 Lemma stop_quiet_ok : forall auto, stop_quiet auto = true.
 Proof. intros []; vm_compute; reflexivity. Qed.
 
@@ -220,20 +199,4 @@ Proof. intros []; vm_compute; reflexivity. Qed.
 Lemma cut_refuted :
   let x := final false [Start true; LoginCut HNetwork] in
   conn x = Closed /\ msession x = true /\ derived x = true.
-Proof. vm_compute. repeat split. Qed.
-
-Lemma tracking_refuted :
-  let p := run true init [Start true; Login RepOk; LostInTracking RWrite; Command; Tick true; Login RepOk] in
-  conn (fst (run true init [Start true; Login RepOk; LostInTracking RWrite])) = Closed /\
-  session (fst (run true init [Start true; Login RepOk; LostInTracking RWrite])) = true /\
-  count OSent (snd p) = 1 /\ count OSessionInit (snd p) = 2 /\ count OSessionDestroyed (snd p) = 0.
-Proof. vm_compute. repeat split. Qed.
-
-Lemma stop_refuted_parents :
-  parents (final false [Start true; Login RepOk; Parents; Stop]) = true.
-Proof. reflexivity. Qed.
-
-Lemma stop_refuted_watchdog :
-  let p := run true init [Start true; Login RepOk; Lost RRead; Stop; Tick true] in
-  stopped (fst p) = true /\ conn (fst p) = Connected /\ count OConnect (snd p) = 2.
 Proof. vm_compute. repeat split. Qed.
